@@ -96,6 +96,9 @@ func gobEncodeItem(it Item) ([]byte, error) {
 		if i, ok := it.(IRI); ok {
 			return []byte(i), nil
 		}
+		if i, ok := it.(*IRI); ok && i != nil {
+			return []byte(*i), nil
+		}
 		return []byte{}, nil
 	}
 	b := bytes.Buffer{}
